@@ -131,6 +131,46 @@ func runSign(seed uint64, n int, outDir string, replay string) {
 				q.al = append(append(types.AccessList(nil), q.al...), types.AccessTuple{Address: cAddr(rc, q.loc)})
 				return "accesslist"
 			},
+			func(q *txParams) string {
+				// no recipient (a contract creation) <-> the zero address of the zone (a transfer that burns): two different
+				// payloads that a "zero means none" shortcut would sign alike
+				zero := common.ZeroAddress(q.loc)
+				if q.to == nil {
+					q.to = &zero
+					return "to:none->zero-address"
+				}
+				if q.to.Equal(zero) {
+					q.to = nil
+					return "to:zero-address->none"
+				}
+				if rc.Bool() {
+					q.to = nil
+					return "to:address->none"
+				}
+				q.to = &zero
+				return "to:address->zero-address"
+			},
+			func(q *txParams) string {
+				if len(q.data) == 0 {
+					q.data = []byte{0}
+					return "data:empty->zero-byte"
+				}
+				q.data = common.CopyBytes(q.data)
+				q.data[len(q.data)-1] ^= 0x80
+				return "data:last-byte"
+			},
+			func(q *txParams) string {
+				if len(q.al) == 0 {
+					q.al = types.AccessList{{Address: cAddr(rc, q.loc)}}
+					return "accesslist:first-entry"
+				}
+				al := append(types.AccessList(nil), q.al...)
+				last := al[len(al)-1]
+				last.StorageKeys = append(append([]common.Hash(nil), last.StorageKeys...), cHash(rc))
+				al[len(al)-1] = last
+				q.al = al
+				return "accesslist:storage-key"
+			},
 		}
 		for _, m := range muts {
 			q := *p
